@@ -271,3 +271,40 @@ func Journal(line string) {
 	jf.Seek(0, 0)
 	jf.WriteString(line)
 }
+
+// JournalSlot is Journal for parallel workers: each slot (worker / case family) keeps its
+// own last line; the file always holds the last line of every slot, so whichever case
+// killed the process is among them.
+var jslots = map[string]string{}
+
+func JournalSlot(slot, line string) {
+	p := os.Getenv("VERIF_JOURNAL")
+	if p == "" {
+		return
+	}
+	jmu.Lock()
+	defer jmu.Unlock()
+	if jf == nil {
+		f, err := os.OpenFile(p, os.O_CREATE|os.O_WRONLY|os.O_TRUNC, 0o644)
+		if err != nil {
+			return
+		}
+		jf = f
+	}
+	jslots[slot] = line
+	keys := make([]string, 0, len(jslots))
+	for k := range jslots {
+		keys = append(keys, k)
+	}
+	sort.Strings(keys)
+	var buf []byte
+	for _, k := range keys {
+		buf = append(buf, k...)
+		buf = append(buf, ": "...)
+		buf = append(buf, jslots[k]...)
+		buf = append(buf, '\n')
+	}
+	jf.Truncate(0)
+	jf.Seek(0, 0)
+	jf.Write(buf)
+}
